@@ -256,16 +256,27 @@ func c13Expect(c c13Case) c13Model {
 		m.WordUsed = true
 		// the pattern: quoted parts are literal
 		var pat strings.Builder
+		dangling := false // the unquoted text so far ends in a backslash that escapes nothing yet
 		for _, s := range wsegs {
 			if s.Quoted {
+				if dangling && s.Text != "" {
+					// a quoted character cannot be escaped once more: the backslash
+					// stands for itself (bash; dash agrees on what does not match)
+					pat.WriteByte('\\')
+					dangling = false
+				}
 				for _, r := range s.Text {
-					if strings.ContainsRune(`?*[\`, r) {
-						pat.WriteByte('\\')
-					}
+					pat.WriteByte('\\')
 					pat.WriteRune(r)
 				}
 			} else {
 				pat.WriteString(s.Text)
+				if s.Text != "" {
+					dangling = false
+				}
+				for j := len(s.Text) - 1; j >= 0 && s.Text[j] == '\\'; j-- {
+					dangling = !dangling
+				}
 			}
 		}
 		pt, err := ref.ParsePattern(pat.String())
